@@ -55,7 +55,38 @@ func moverSet(blocks []*ssa.BasicBlock) (map[string]bool, map[string]ssa.CallIns
 				if s, ok := moverShort[core.CallName(c)]; ok {
 					set[s] = true
 					calls[s] = c
+					continue
 				}
+				// helper of package vm: its movers count for the calling case (depth 2)
+				if g := core.StaticCallee(c); g != nil && core.PkgOf(g) == "vm" && g != b.Parent() {
+					sub, _ := moverSetOfFunc(g, 0)
+					for k := range sub {
+						set[k] = true
+						if _, have := calls[k]; !have {
+							calls[k] = c
+						}
+					}
+				}
+			}
+		}
+	}
+	return set, calls
+}
+
+func moverSetOfFunc(g *ssa.Function, depth int) (map[string]bool, map[string]ssa.CallInstruction) {
+	set := map[string]bool{}
+	calls := map[string]ssa.CallInstruction{}
+	if depth > 2 {
+		return set, calls
+	}
+	for _, c := range core.Calls(g) {
+		if s, ok := moverShort[core.CallName(c)]; ok {
+			set[s] = true
+			calls[s] = c
+		} else if h := core.StaticCallee(c); h != nil && core.PkgOf(h) == "vm" && h != g {
+			sub, _ := moverSetOfFunc(h, depth+1)
+			for k := range sub {
+				set[k] = true
 			}
 		}
 	}
@@ -365,10 +396,38 @@ func runC04(w *core.World, r *core.Report) {
 	// ---- R4 -----------------------------------------------------------------------------------
 	rew := w.Func("vm", "Rewind")
 	n4 := 0
+	// the dispatcher family: the dispatcher, Rewind, and helpers of package vm all of whose library
+	// callers belong to the family
+	family := map[*ssa.Function]bool{rew: true}
+	for d := range disp {
+		family[d] = true
+	}
+	for changed := true; changed; {
+		changed = false
+		for _, fn := range w.FuncsIn("vm") {
+			if family[fn] {
+				continue
+			}
+			cs := libCallers(w, fn)
+			if len(cs) == 0 {
+				continue
+			}
+			all := true
+			for _, c := range cs {
+				if !family[c.Parent()] {
+					all = false
+				}
+			}
+			if all {
+				family[fn] = true
+				changed = true
+			}
+		}
+	}
 	for _, fn := range w.FuncsIn("vm") {
 		for _, c := range core.CallsTo(fn, stDown, stUp, stNext, stPrev) {
 			n4++
-			ok := disp[fn] || fn == rew
+			ok := family[fn]
 			r.Check(ok, "R4", fmt.Sprintf("%s: calls %s", core.QName(fn), moverShort[core.CallName(c)]), c.Pos(), "dispatcher/Rewind", "a State mover is called outside the target dispatcher: the move bypasses the documented table (validation, cache push/pop pairing)")
 		}
 	}
